@@ -44,6 +44,15 @@ fn main() {
             d.eeprom_bytes = d.eeprom_bytes.max(build_sii(&d).len().next_power_of_two());
         }
         let image = build_sii(&d);
+        // builder and decoder are written independently of each other and of ethercrab: they must
+        // agree, or the harness itself is wrong (inconclusive, never a verdict on ethercrab)
+        match decode_sii(&image) {
+            Some(x) if (x.vendor, x.product, x.revision, x.serial, &x.strings, &x.sms, &x.pdos, &x.fmmu_ex, x.mailbox, x.has_general) == (d.vendor, d.product, d.revision, d.serial, &d.strings, &d.sms, &d.pdos, &d.fmmu_ex, d.mailbox, d.has_general) => sh.count("builder_decoder_agree"),
+            other => sh.inconclusive = Some(format!("harness: SII builder and decoder disagree on case {case}: {:?}", other.map(|x| (x.strings.len(), x.sms.len(), x.pdos.len())))),
+        }
+        if rng.chance(1, 24) {
+            real_dump_checks(&mut sh, case, &mut rng);
+        }
         sh.case(Some(fnv_mix(fnv(&image), case)));
         sh.max("image_bytes", image.len() as u64);
         let chunk = if rng.bool() { 4 } else { 8 };
@@ -58,6 +67,28 @@ fn main() {
         }
     }
     sh.finish();
+}
+
+/// The repo's dumps of real devices: raw reads against the file's bytes, parsed items against the
+/// independent decoder's reading of the same bytes.
+fn real_dump_checks(sh: &mut Shard, case: u64, rng: &mut Rng) {
+    const DUMPS: [&str; 7] = ["akd.hex", "akd_null_strings.hex", "ek1100.hex", "el2262.bin", "el2828.hex", "el2889.hex", "hbm_clipx_eeprom_dump.bin"];
+    let name = *rng.pick(&DUMPS);
+    let Ok(image) = std::fs::read(format!("/repo/dumps/eeprom/{name}")) else {
+        sh.observe("real_dump_missing", name.to_string());
+        return;
+    };
+    let chunk = if rng.bool() { 4 } else { 8 };
+    sh.count(&format!("real_dump.{name}"));
+    sh.distinct_aux(fnv_mix(fnv(&image), chunk as u64));
+    raw_checks(sh, case, rng, &image, chunk);
+    match decode_sii(&image) {
+        Some(d) => {
+            sh.count("real_dump.parsed");
+            parse_checks(sh, case, &d, &image, chunk);
+        }
+        None => sh.observe("real_dump_not_decodable", name.to_string()),
+    }
 }
 
 fn v(sh: &mut Shard, sig: &str, detail: String, case: u64) {
@@ -176,7 +207,7 @@ fn parse_checks(sh: &mut Shard, case: u64, d: &DeviceDesc, image: &[u8], chunk: 
     match now_or_never(p.fmmus()) {
         Ok(f) => {
             sh.count("parsed.fmmus");
-            let mut want = d.fmmus.clone();
+            let mut want: Vec<u8> = d.fmmus.iter().map(|b| if *b == 0xff { 0 } else { *b }).collect();
             if want.len() % 2 == 1 {
                 want.push(0); // pad byte 0xff reads as "unused"
             }
